@@ -4,9 +4,31 @@ from checks import alu_common
 
 PROP = "C10"
 MODULE = "Proofs.C10"
-THEOREMS = []
+NS = "Teakra.Interp."
+THEOREMS = [NS + t for t in [
+    # log2p1 / mask
+    "log2p1_spec", "lowMask_toNat",
+    # zero step, linear stepping (modulo not in effect)
+    "step_zero", "step_zero_amount", "step_linear", "step_linear_increase", "step_linear_decrease",
+    "step_linear_increase2", "step_linear_decrease2", "step_linear_plusStep", "stepAmount_plusStep",
+    "signExtend16_toInt",
+    # one modulo step, Teak and TeakLite branch
+    "legacyMask_one", "legacyMask_neg_one", "modStepNew_inc", "modStepNew_dec", "modStepLegacy_inc",
+    "modStepLegacy_dec", "modStepNew_high", "modStepLegacy_high", "modStepNew_stays", "modStepLegacy_stays",
+    "modStepNew_cyclic", "modStepLegacy_cyclic",
+    # the cyclic successor / predecessor themselves
+    "wrapInc_stays", "wrapDec_stays", "wrapDec_wrapInc", "wrapInc_wrapDec", "wrapInc_cyclic", "wrapDec_cyclic",
+    # lifted to stepAddressPure
+    "mod_inc", "mod_dec", "step_high_bits", "mod_high_bits", "mod_high_bits_unit", "highBitsAlways_partial",
+    "not_highBitsAlways", "modStepLegacy_step2_mod1", "mod_stays_in_buffer", "mod_cyclic", "mod_cyclic_dec",
+    "mod_inc_dec_inverse",
+    # bit reversal, RnAddress, RnAndModify
+    "bitReverse_involutive", "bitReverse_getElem", "rnAddress_brv", "rnAndModify_run", "rnNext_normal",
+    "rnNext_endPointer", "setRn_frame", "setRn_same", "setRn_other", "zero_step_unchanged",
+    "zero_step_endPointer", "rnAddressAndModify_brv", "rnAddressAndModify_plain"]]
 TRUSTED = ["hand-written model of StepAddress / RnAndModify / RnAddress (lean/TeakraModel/Interp.lean: stepAmount, "
-           "modStepLegacy, modStepNew, stepAddressPure), tied by the `alu step` helper sweep and the instruction slice"]
+           "modStepLegacy, modStepNew, stepAddressPure), tied by the `alu step` helper sweep and the instruction slice",
+           "Mathlib.Tactic.IntervalCases / SplitIfs (proof automation only; kernel-checked)"]
 ASSUMPTIONS = []
 PREFIXES = ["modr", "bitrev", "load_mod", "load_step", "movd", "movp", "mov_Rn", "mov_Register_Rn", "mov2", "mova",
             "exchange", "alm_Alm_Rn", "alb_Alb_Imm16_Rn", "tstb_Rn", "movs_Rn", "movr_Rn", "exp_Rn", "mul_", "max2", "min2"]
